@@ -16,3 +16,9 @@ import SJ.Props.StreamTyped
 #print axioms SJ.Props.StreamTyped.c12_typed_history_get
 #print axioms SJ.Props.StreamTyped.c12_typed_eof_at_end
 #print axioms SJ.Props.StreamTyped.nextT_no_fuel
+#print axioms SJ.Props.C12.c12_eof_proper_prefix
+#print axioms SJ.Props.C12.c12_syntax_otherwise
+#print axioms SJ.Props.StreamTyped.c12_typed_values
+#print axioms SJ.Props.StreamTyped.c12_typed_expected_at
+#print axioms SJ.Props.StreamTyped.c12_typed_expected_end
+#print axioms SJ.Props.StreamTyped.c12_typed_values_agree
